@@ -252,6 +252,20 @@ int main()
             else
                 out("G !" + e);
         }
+        else if (c == "GRPD")
+        {
+            // GRPD <gvar>: keep a handle to the default group
+            int g = std::atoi(w[1].c_str());
+            no::group* gp = nullptr;
+            std::string e = guarded([&] { gp = &st.p->group(); });
+            if (e.empty())
+            {
+                st.groups[g] = gp;
+                out("G ok default");
+            }
+            else
+                out("G !" + e);
+        }
         else if (c == "OPT" || c == "MUL" || c == "TOG")
         {
             // OPT <gvar|-1|-2> <ovar> <name> [<desc>]   (-1: parser.option(), -2: parser.group().option())
